@@ -6,7 +6,7 @@ open SteelVerif.C02
 #print axioms fold_preserves
 #print axioms inline_then_fold_preserves
 #print axioms inline_needs_arity_check
-#print axioms tier_transparent
+#print axioms tier_transparent_partial
 #print axioms tier_hypothesis_needed
 #print axioms tier_hypothesis_needed_error
 #print axioms inline_history_partial
